@@ -777,3 +777,21 @@ def sign_term(x) -> T:
     """A term with the sign of a real Frac."""
     x = Frac.of(x)
     return x._diff_sign_term(Frac(tm.const(0)))
+
+
+def _real_frac(x):
+    x = primal(x)
+    return x.re if isinstance(x, Cx) else Frac.of(x)
+
+
+def sign_term_ge(x) -> T:
+    """Bool term: x >= 0 (x a real value)."""
+    return Frac(tm.const(0)).le(_real_frac(x))
+
+
+def sign_term_gt(x) -> T:
+    return Frac(tm.const(0)).lt(_real_frac(x))
+
+
+def sign_term_lt(x) -> T:
+    return _real_frac(x).lt(Frac(tm.const(0)))
